@@ -161,8 +161,8 @@ Print Assumptions C11_query_equals_constraints.
 
 (* slicing affects the solver, never `conditions` *)
 Theorem C11_slicing_keeps_conditions :
-  forall (cond : Type) (p q parent : path cond) vs,
-    (slice cond p vs = Some q -> conditions q = conditions p) /\
+  forall (cond : Type) (vars : cond -> list Z) (p q parent : path cond) vs,
+    (slice cond vars p vs = Some q -> conditions q = conditions p) /\
     conditions (extend_path cond p parent) = conditions parent.
 Proof. exact slicing_keeps_conditions. Qed.
 Print Assumptions C11_slicing_keeps_conditions.
@@ -221,6 +221,21 @@ Theorem C11_every_path_query_equals_constraints :
      <-> path_constraints_hold sem e (accumulated cond (nth i (lineages cond ops) []))).
 Proof. exact every_path_query_sem_gen. Qed.
 Print Assumptions C11_every_path_query_equals_constraints.
+
+(* a fork condition is a constraint of the forked path from the moment of the fork, but it is
+   in `pending` -- not in `conditions`, hence not in the query -- until Path.activate: the
+   constraints handed to a path are exactly those its query asserts (C11_all_conditions)
+   plus those still pending.  The query of a path is complete iff nothing is pending: a
+   path must be activated before it is serialised (SEVM.run activates every state it takes
+   from the worklist, also one that is only taken out to be yielded) *)
+Theorem C11_pending_is_what_the_query_lacks :
+  forall (cond : Type) (cond_eqb : cond -> cond -> bool) (simp : cond -> cond)
+         (is_true : cond -> bool) (vars : cond -> list Z) ops s0 p,
+    run cond cond_eqb simp is_true vars (empty_path cond s0) ops = Some p ->
+    extends_active_from cond [] ops = true ->
+    forall c, In c (handed cond ops) <-> In c (accumulated cond ops) \/ In c (pending p).
+Proof. exact handed_accumulated_pending. Qed.
+Print Assumptions C11_pending_is_what_the_query_lacks.
 
 (* ---- conditions vs solver.  The z3 solver of a path (used to prune infeasible branches,
    never to build the query) holds nothing but what the solvers handed to Path(...) already
